@@ -96,11 +96,6 @@ def match_known(prop: str, v: Violation, known: List[dict]) -> Optional[dict]:
 def finish(res: Result, tier: str, seed: int, t0: float, technique: str) -> int:
     """Print report, write evidence, return exit code."""
     from .loader import AnalysisError
-    for rule, n in res.min_counts.items():
-        got = res.rules.get(rule, 0)
-        if got < n:
-            raise AnalysisError(f"rule {rule}: {got} instances analysed, at least {n} were confirmed on the "
-                                f"pinned tree (anchor vanished?)")
     known = load_known()
     new: List[Violation] = []
     seen_known = {}
@@ -114,6 +109,13 @@ def finish(res: Result, tier: str, seed: int, t0: float, technique: str) -> int:
             seen_known.setdefault(k["id"], (k, v))
         else:
             new.append(v)
+    if not new:
+        # a rule that matched fewer instances than confirmed by hand passes vacuously: fail closed
+        for rule, n in res.min_counts.items():
+            got = res.rules.get(rule, 0)
+            if got < n:
+                raise AnalysisError(f"rule {rule}: {got} instances analysed, at least {n} were confirmed on the "
+                                    f"pinned tree (anchor vanished?)")
     print(f"[{res.prop}] tier={tier} functions={len(res.functions)} paths={res.paths} "
           f"obligations={res.obligations} discharged={res.discharged} "
           f"rules={json.dumps(res.rules, sort_keys=True)}")
